@@ -17,7 +17,11 @@
 #include <smooth/manifolds/vector.hpp>
 #include <smooth/optim.hpp>
 #include <smooth/spline/bspline.hpp>
+#include <smooth/polynomial/basis.hpp>
+#include <smooth/polynomial/quadrature.hpp>
+#include <smooth/spline/dubins.hpp>
 #include <smooth/spline/fit.hpp>
+#include <smooth/spline/reparameterize.hpp>
 #include <smooth/spline/spline.hpp>
 
 #include "../types.hpp"
@@ -77,9 +81,110 @@ const char * op_name(int k)
   return n[k];
 }
 
+// Extended operations (added after the first 14; selected by words decoded AFTER everything else so that older
+// tapes keep their meaning). `var` differs between threads: threads hit the same code with DIFFERENT arguments,
+// sizes and template instantiations, which is what an argument-keyed cache or a shared scratch buffer needs to fail.
+constexpr int NEXT = 5;
+const char * ext_name(int k)
+{
+  static const char * n[NEXT] = {"dubins + reparameterize", "Spline arclength/concat/crop", "polynomial tables + quadrature", "sparse second-order + Bundle (private outputs)", "AnyManifold/SubManifold varied sizes"};
+  return n[k];
+}
+
+template<int K>
+void poly_tables(Out & o, double u)
+{
+  constexpr auto Bs = smooth::polynomial_basis<smooth::PolynomialBasis::Bspline, K>();
+  constexpr auto Bc = smooth::polynomial_cumulative_basis<smooth::PolynomialBasis::Bernstein, K>();
+  for (const auto & r : Bs) for (double x : r) o.push_back(x);
+  for (const auto & r : Bc) for (double x : r) o.push_back(x);
+  for (const auto & r : smooth::monomial_derivative<K>(u, 1)) for (double x : r) o.push_back(x);
+  const auto [xs, ws] = smooth::lgr_nodes<K + 2>();
+  for (double x : xs) o.push_back(x);
+  for (double w : ws) o.push_back(w);
+}
+
+Out run_ext(int k, int var, const Shared & s)
+{
+  Out o;
+  switch (k) {
+  case 0: {
+    const SE2d target(SO2d(0.7 + 0.9 * var), Eigen::Vector2d(2.0 + var, -1.5 + 0.5 * var));
+    const auto c = dubins_curve<3>(target, 0.5 + 0.25 * var);
+    o.push_back(c.t_max());
+    push(o, c(0.4 * c.t_max()).coeffs());
+    const Eigen::Vector3d vmax(1.0 + var, 1.0, 1.0), amax(1.0, 1.0 + 0.5 * var, 1.0);
+    const auto r = reparameterize_spline(c, -vmax, vmax, -amax, amax, 0.5, 0.0, static_cast<std::size_t>(10 + 7 * var));
+    o.push_back(r.t_max());
+    Eigen::Matrix<double, 1, 1> dv;
+    o.push_back(r(0.5 * r.t_max(), dv));
+    o.push_back(dv(0));
+    break;
+  }
+  case 1: {
+    push(o, s.spline.arclength((0.3 + 0.2 * var) * s.spline.t_max()));
+    Spline<3, SE2d> cat = s.spline;  // (operator+ is not const-qualified in the library: copy, then append)
+    cat += s.spline.crop(0.1 * var, s.spline.t_max());
+    o.push_back(cat.t_max());
+    push(o, cat((0.5 + 0.1 * var) * cat.t_max()).coeffs());
+    Eigen::Vector3d v;
+    push(o, s.spline.crop(0.5 * var, s.spline.t_max() - 0.25)(0.5, v).coeffs());
+    push(o, v);
+    push(o, s.spline.start().coeffs());
+    push(o, s.spline.end().coeffs());
+    break;
+  }
+  case 2: {
+    const double u = 0.1 + 0.3 * var;
+    if (var % 3 == 0) poly_tables<3>(o, u);
+    else if (var % 3 == 1) poly_tables<5>(o, u);
+    else poly_tables<2>(o, u);
+    o.push_back(smooth::integrate_absolute_polynomial(-1.0, 2.0 + var, 1.0, -0.5 * var, -1.0));
+    break;
+  }
+  case 3: {
+    if (var % 2 == 0) {
+      Eigen::SparseMatrix<double> H = d2_exp_sparse_pattern<SE3d>, J = d_exp_sparse_pattern<SE3d>;
+      d2r_expinv_sparse<SE3d>(H, s.a);
+      dr_expinv_sparse<SE3d>(J, s.a);
+      push(o, Eigen::MatrixXd(H));
+      push(o, Eigen::MatrixXd(J));
+    } else {
+      const auto l = s.bundle.log();
+      Eigen::SparseMatrix<double> H = d2_exp_sparse_pattern<types::B2>, A = ad_sparse_pattern<types::B2>;
+      d2r_exp_sparse<types::B2>(H, l);
+      ad_sparse<types::B2>(A, l);
+      push(o, Eigen::MatrixXd(H));
+      push(o, Eigen::MatrixXd(A));
+    }
+    Eigen::SparseMatrix<double> J3 = d_exp_sparse_pattern<SO3d>;
+    dr_exp_sparse<SO3d>(J3, s.a.tail<3>() * (1.0 + var));
+    push(o, Eigen::MatrixXd(J3));
+    break;
+  }
+  default: {
+    // the same shared const objects, perturbed by tangent vectors that differ per thread
+    const auto & sub = s.sub_ref();
+    Eigen::VectorXd d = Eigen::VectorXd::LinSpaced(sub.dof(), -0.1 * (1 + var), 0.2);
+    const auto moved = smooth::rplus(sub, d);
+    push(o, moved.m().coeffs());
+    push(o, smooth::rminus(moved, sub));
+    Eigen::VectorXd e = Eigen::VectorXd::Constant(s.any1.dof(), 0.03 * (1 + var));
+    const AnyManifold am = s.any1.rplus(e);
+    push(o, am.rminus(s.any1));
+    push(o, s.any2.rminus(am));
+    const AnyManifold other(var % 2 == 0 ? AnyManifold(s.vec1.front()) : AnyManifold(s.g2));
+    o.push_back(static_cast<double>(other.dof()));
+    break;
+  }
+  }
+  return o;
+}
+
 Out run_op(int k, const Shared & s)
 {
   Out o;
+  if (k >= 100) return run_ext((k - 100) % NEXT, (k - 100) / NEXT, s);
   switch (k) {
   case 0:
     push(o, (s.g1 * s.g2).coeffs());
@@ -253,13 +358,29 @@ void c18_workload(vf::Tape & t, vf::Ctx & ctx)
   const int len = 1 + static_cast<int>(t.choice(5));
   for (int i = 0; i < nthreads; ++i)
     for (int j = 0; j < len; ++j) lists[static_cast<size_t>(i)].push_back(same_op && i > 0 ? lists[0][static_cast<size_t>(j)] : static_cast<int>(t.choice(NOPS)));
+  // extension words (zero past the end of older tapes = no extended operation)
+  const auto ext_mode = t.choice(4);  // 0 none, 1 one extended op appended for all threads, 2 two, 3 extended ops only
+  if (ext_mode != 0) {
+    const int e1 = static_cast<int>(t.choice(NEXT)), e2 = static_cast<int>(t.choice(NEXT));
+    const bool vary = t.flag();  // per-thread arguments differ / are identical
+    for (int i = 0; i < nthreads; ++i) {
+      auto & l = lists[static_cast<size_t>(i)];
+      const int var = vary ? i % 4 : 0;
+      if (ext_mode == 3) l.clear();
+      l.push_back(100 + e1 + NEXT * var);
+      if (ext_mode >= 2) l.push_back(100 + e2 + NEXT * var);
+    }
+    ctx.label(vary ? "ext:per-thread-arguments" : "ext:same-arguments");
+  } else {
+    ctx.label("ext:none");
+  }
   if (ctx.want_desc) {
     ctx.desc << "threads=" << nthreads << " reps=" << reps << (same_op ? " same-ops" : " mixed-ops") << " ops(thread0)=[";
-    for (int k : lists[0]) ctx.desc << op_name(k) << "; ";
+    for (int k : lists[0]) ctx.desc << (k >= 100 ? ext_name((k - 100) % NEXT) : op_name(k)) << "; ";
     ctx.desc << "]";
   }
   for (const auto & l : lists)
-    for (int k : l) ctx.label(std::string("op:") + op_name(k));
+    for (int k : l) ctx.label(std::string("op:") + (k >= 100 ? ext_name((k - 100) % NEXT) : op_name(k)));
   ctx.set_nontrivial(nthreads >= 2 && same_op);
 
   std::atomic<int> ready{0};
